@@ -187,7 +187,7 @@ def check_hist(ctx, depth, first):
         if dontcare:
             bad = None
         if bad:
-            ctx.violations.append({"check": ctx.name, "kernel": "k_life_hist", "violated": bad, "inputs": {"ops": seq, "create_results": creates, "malloc_count": mval(m, cnt)},
+            ctx.report(q, {"check": ctx.name, "kernel": "k_life_hist", "violated": bad, "inputs": {"ops": seq, "create_results": creates, "malloc_count": mval(m, cnt)},
                                    "outcome": q.status, "msg": q.info, "replayed": None})
         else:
             ctx.discharged += 1
